@@ -58,6 +58,7 @@ public:
 		Root(root, [&](auto& v)
 		{
 			if (in.mem) BitSerializer::LoadObject<TArchive>(v, *in.mem, o);
+			else if (in.view) BitSerializer::LoadObject<TArchive>(v, *in.view, o);
 			else BitSerializer::LoadObject<TArchive>(v, *in.stream, o);
 		});
 	}
@@ -92,6 +93,7 @@ public:
 		if constexpr (TreeZoo)
 		{
 			if (in.mem) BitSerializer::LoadObject<TArchive>(z, *in.mem, o);
+			else if (in.view) BitSerializer::LoadObject<TArchive>(z, *in.view, o);
 			else BitSerializer::LoadObject<TArchive>(z, *in.stream, o);
 		}
 		else
@@ -99,6 +101,7 @@ public:
 			auto load = [&](auto& rows)
 			{
 				if (in.mem) BitSerializer::LoadObject<TArchive>(rows, *in.mem, o);
+				else if (in.view) BitSerializer::LoadObject<TArchive>(rows, *in.view, o);
 				else BitSerializer::LoadObject<TArchive>(rows, *in.stream, o);
 			};
 			switch (z.csvRoot) { case 1: load(z.rowsList); break; case 2: load(z.rowsDeque); break; case 3: load(z.rowsFwd); break; default: load(z.rows); }
